@@ -64,6 +64,59 @@ fn main() {
                 run += 1;
             }
         }
+        Some("pair") => {
+            // qv pair <scripts.ndjson> <out.ndjson> [--first-run K]: every script is run twice in
+            // this process (variant from script.tag.variant) and the outputs are zipped
+            std::panic::set_hook(Box::new(|_| {}));
+            let inp = std::fs::File::open(&args[2]).expect("scripts file");
+            let mut out = BufWriter::new(std::fs::File::create(&args[3]).expect("out"));
+            let mut run: u64 = if args.len() > 5 && args[4] == "--first-run" { args[5].parse().unwrap() } else { 0 };
+            for line in std::io::BufReader::new(inp).lines() {
+                let line = line.unwrap();
+                if line.trim().is_empty() {
+                    continue;
+                }
+                let script: serde_json::Value = serde_json::from_str(&line).expect("script json");
+                let variant = script["tag"]["variant"].as_str().unwrap_or("same").to_string();
+                let a = Runner::run_script(&script, run, 0);
+                let mut sb = script.clone();
+                match variant.as_str() {
+                    "shift" => sb["cfg"]["epoch_shift_s"] = serde_json::json!(script["tag"]["shift_s"].as_u64().unwrap_or(1000)),
+                    "spurious" => {
+                        sb["cfg"]["spurious"] = serde_json::json!(true);
+                    }
+                    _ => {}
+                }
+                let b = Runner::run_script(&sb, run, 0);
+                let with_timeouts = variant != "spurious";
+                for l in qv_core::pair::zip(&serde_json::json!(run), &variant, &a, &b, with_timeouts) {
+                    writeln!(out, "{}", l).unwrap();
+                }
+                run += 1;
+            }
+        }
+        Some("zip") => {
+            // qv zip <a/master.ndjson> <b/master.ndjson> <out.ndjson>: outputs of two processes
+            let read = |p: &str| -> Vec<Vec<serde_json::Value>> {
+                let mut runs: Vec<Vec<serde_json::Value>> = Vec::new();
+                for line in std::io::BufReader::new(std::fs::File::open(p).expect("master")).lines() {
+                    let v: serde_json::Value = serde_json::from_str(&line.unwrap()).unwrap();
+                    if v["ev"] == "Reset" {
+                        runs.push(Vec::new());
+                    }
+                    runs.last_mut().unwrap().push(v);
+                }
+                runs
+            };
+            let a = read(&args[2]);
+            let b = read(&args[3]);
+            let mut out = BufWriter::new(std::fs::File::create(&args[4]).expect("out"));
+            for (ra, rb) in a.iter().zip(b.iter()) {
+                for l in qv_core::pair::zip(&ra[0]["run"], "fresh", ra, rb, true) {
+                    writeln!(out, "{}", l).unwrap();
+                }
+            }
+        }
         Some("cc") => {
             std::panic::set_hook(Box::new(|_| {}));
             qv_core::cc::run(&args[2], &args[3]);
